@@ -1,25 +1,61 @@
 #!/usr/bin/env python3
-"""Development aid: for every seeded change, apply it to /repo's working tree, run the quick tier of the
-check of the property it targets, revert; write /root/final_targeted.json (id -> outcome)."""
-import json, glob, os, subprocess, sys
+"""Development aid: for every seeded change, apply it to a scratch worktree of /repo's HEAD, run the quick
+tier of the check of the property it targets from a private copy of the committed /verif whose engine
+depends on that worktree (equivalent to git -C /repo apply; ./check <ID> quick; git -C /repo checkout -- .),
+revert; write /root/final_targeted.json (id -> outcome). SLOTS worktrees run in parallel."""
+import json, glob, os, subprocess, sys, shutil, threading, queue
+SLOTS=int(os.environ.get('SLOTS','4'))
+SNAP=subprocess.run('git -C /verif rev-parse HEAD',shell=True,capture_output=True,text=True).stdout.strip()
 out={}
 try:
     out=json.load(open('/root/final_targeted.json'))
 except Exception:
     pass
 only=set(sys.argv[1:])
-def sh(c): return subprocess.run(c,shell=True,capture_output=True,text=True)
+lock=threading.Lock()
+def sh(c,cwd=None,env=None,timeout=3000):
+    e=dict(os.environ); e['CARGO_NET_OFFLINE']='true'
+    if env: e.update(env)
+    try:
+        p=subprocess.run(c,shell=True,capture_output=True,text=True,cwd=cwd,env=e,timeout=timeout)
+        return p.returncode,p.stdout+p.stderr
+    except subprocess.TimeoutExpired:
+        return 124,'timeout'
+q=queue.Queue()
 for d in sorted(glob.glob('/verif/seeded/*/')):
     ident=os.path.basename(d.rstrip('/'))
     if ident.startswith('own-') or (only and ident not in only): continue
-    prop=ident[:3]
-    sh('git -C /repo checkout -- . ; git -C /repo clean -fdq regexml')
-    r=sh(f'git -C /repo apply {d}patch.diff')
-    if r.returncode!=0:
-        out[ident]='patch no longer applies'
-    else:
-        c=sh(f'/verif/check {prop} quick')
-        out[ident]={0:'silent',1:'VIOLATION',2:'machinery error'}.get(c.returncode,str(c.returncode))
-    sh('git -C /repo checkout -- . ; git -C /repo clean -fdq regexml')
-    print(ident,out[ident],flush=True)
-    json.dump(out,open('/root/final_targeted.json','w'),indent=1)
+    if not only and ident in out and os.environ.get('RESUME'): continue
+    q.put((ident,d))
+def worker(slot):
+    wt=f'/tmp/ft-{slot}-repo'; vroot=f'/tmp/ft-{slot}-verif'; tgt=f'/tmp/ft-{slot}-target'
+    sh(f'git -C /repo worktree remove --force {wt}'); sh(f'rm -rf {wt} {vroot}')
+    rc,o=sh(f'git -C /repo worktree add -q --detach {wt} HEAD')
+    assert rc==0,o
+    sh(f'mkdir -p {vroot} && git -C /verif archive {SNAP} | tar -x -C {vroot} && rm -rf {vroot}/seeded {vroot}/evidence/thorough')
+    for f2 in [f'{vroot}/engine/Cargo.toml', f'{vroot}/engine/probes/sendsync/Cargo.toml']:
+        s=open(f2).read().replace('path = "/repo/regexml"', f'path = "{wt}/regexml"')
+        open(f2,'w').write(s)
+    env={'CARGO_TARGET_DIR':tgt,'RUSTFLAGS':'--cfg regexml_verif','VERIF_ROOT':vroot}
+    while True:
+        try: ident,d=q.get_nowait()
+        except queue.Empty: break
+        prop=ident[:3]
+        sh('git checkout -- . ; git clean -fdq regexml',cwd=wt)
+        rc,o=sh(f'git apply {d}patch.diff',cwd=wt)
+        if rc!=0:
+            r='patch no longer applies'
+        else:
+            rc,o=sh('cargo build --release --offline 2>&1 | tail -3',cwd=f'{vroot}/engine',env=env)
+            rc,o=sh(f'{tgt}/release/rxmc check {prop} --tier quick --jobs 4',cwd=f'{vroot}/engine',env=env)
+            r={0:'silent',1:'VIOLATION',2:'machinery error',124:'timeout'}.get(rc,str(rc))
+            if rc==1 and 'VIOLATION property='+prop not in o: r='exit 1 without VIOLATION line'
+        sh('git checkout -- . ; git clean -fdq regexml',cwd=wt)
+        with lock:
+            out[ident]=r
+            print(ident,r,flush=True)
+            json.dump(out,open('/root/final_targeted.json','w'),indent=1)
+    sh(f'git -C /repo worktree remove --force {wt}'); sh(f'rm -rf {wt} {vroot} {tgt}')
+ts=[threading.Thread(target=worker,args=(s,)) for s in range(SLOTS)]
+for t in ts: t.start()
+for t in ts: t.join()
